@@ -321,6 +321,11 @@ func (b *Builder) fill(t *rapid.T, v reflect.Value, depth int) {
 				}
 				val.Set(p)
 			}
+			if val.Kind() == reflect.Slice && val.IsNil() {
+				// likewise a nil slice: where nil means "no value" or null for the array type, a wrapper
+				// that says "set, not null" around it is a second spelling of absent/null, not a value
+				val.Set(reflect.MakeSlice(val.Type(), 0, 0))
+			}
 			return
 		}
 	}
